@@ -2,6 +2,9 @@
    line per case (same text as the Rust harness prints for the implementation). *)
 module ZA = Z
 open Model
+module String = Stdlib.String
+module List = Stdlib.List
+type string = Stdlib.String.t
 
 let rec pos_of_z (z : ZA.t) : positive =
   if ZA.equal z ZA.one then XH
@@ -74,7 +77,7 @@ let parse_str (v : string) : n list =
 let rec show_value = function
   | VInt k -> string_of_n k
   | VStr s -> show_str s
-  | VBytes b -> "b:" ^ hex b
+  | VBytes b -> "[" ^ String.concat ";" (List.map string_of_n b) ^ "]"
   | VDate (y, mo, d, h, mi, s) ->
       Printf.sprintf "d:%s,%s,%s,%s,%s,%s" (ZA.to_string (z_of_coqz y)) (string_of_n mo) (string_of_n d)
         (string_of_n h) (string_of_n mi) (string_of_n s)
@@ -106,6 +109,34 @@ let all_strings k suffix (f : n list -> unit) =
     f (List.init k (fun j -> n_of_int ((i lsr (8 * (k - 1 - j))) land 255)) @ suffix)
   done
 
+let coq_string (s : string) : Model.string =
+  let n = String.length s in
+  let rec go i =
+    if i = n then EmptyString
+    else begin
+      let c = Char.code s.[i] in
+      let b k = (c lsr k) land 1 = 1 in
+      String (Ascii (b 0, b 1, b 2, b 3, b 4, b 5, b 6, b 7), go (i + 1))
+    end in
+  go 0
+
+let dec_s name bs =
+  match run_dec (coq_string name) bs with
+  | None -> "NoSuchType"
+  | Some (r, re) ->
+      (match r with
+       | Ok (v, rem) ->
+           "Ok " ^ show_value v ^ " rem=" ^ hex rem ^ " re=" ^
+           (match re with Ok b -> hex b | Panic -> "Panic" | OutOfFuel -> "Hang" | Err e -> "Model" ^ err_s e)
+       | Err e -> err_s e
+       | Panic -> "Panic"
+       | OutOfFuel -> "Hang")
+
+let enum_s name bs =
+  match run_enum (coq_string name) bs with
+  | None -> "NoSuchType"
+  | Some r -> res_s (fun (i, v) -> string_of_n i ^ " " ^ show_value v) r
+
 let () =
   let ic = if Array.length Sys.argv > 1 && Sys.argv.(1) <> "-" then open_in Sys.argv.(1) else stdin in
   let oc = if Array.length Sys.argv > 2 then open_out Sys.argv.(2) else stdout in
@@ -128,6 +159,8 @@ let () =
               let bs = List.init k (fun j -> n_of_int ((i lsr (8 * (k - 1 - j))) land 255)) in
               emit (len_de_s f.(1) (bs @ suffix))
             done
+        | "dec" -> emit (dec_s f.(1) (unhex f.(2)))
+        | "enum" -> emit (enum_s f.(1) (unhex f.(2)))
         | "p_enc" -> emit (p_enc_s f.(1) f.(2) (parse_prim_value f.(3)))
         | "p_dec" -> emit (p_dec_s f.(1) f.(2) (unhex f.(3)))
         | "p_enc_range" ->
